@@ -2024,3 +2024,39 @@ def m_map_contains(ex, st, func, args, argtys, dest_ty):
 @model(r"HashMap::<.*>::len$")
 def m_map_len(ex, st, func, args, argtys, dest_ty):
     return [("ret", len(deref(args[0])), None)]
+
+
+# ------------------------------------------------------------------ bitcoin hash newtypes (opaque byte wrappers)
+
+@model(r"bitcoin_hashes::Hash>::from_byte_array$|as Hash>::from_byte_array$")
+def m_hash_from_bytes(ex, st, func, args, argtys, dest_ty):
+    return [("ret", Struct([args[0]]), None)]
+
+
+@model(r"bitcoin_hashes::Hash>::to_byte_array$|as Hash>::to_byte_array$")
+def m_hash_to_bytes(ex, st, func, args, argtys, dest_ty):
+    v = deref(args[0])
+    return [("ret", copy.deepcopy(v[0]), None)]
+
+
+@model(r"^std::mem::drop::<.*>$|^core::mem::drop::<.*>$|^drop::<.*>$")
+def m_mem_drop(ex, st, func, args, argtys, dest_ty):
+    return [("ret", Struct([]), None)]
+
+
+@model(r"Option::<.*>::zip::<.*>$")
+def m_option_zip(ex, st, func, args, argtys, dest_ty):
+    a, b = args
+    if a.variant == 1 and b.variant == 1:
+        return [("ret", some(Struct([a.fields[0], b.fields[0]])), None)]
+    return [("ret", none(), None)]
+
+
+@model(r"Option::<.*>::or$")
+def m_option_or(ex, st, func, args, argtys, dest_ty):
+    return [("ret", args[0] if args[0].variant == 1 else args[1], None)]
+
+
+@model(r"Option::<.*>::and$")
+def m_option_and(ex, st, func, args, argtys, dest_ty):
+    return [("ret", args[1] if args[0].variant == 1 else none(), None)]
